@@ -23,7 +23,7 @@ RULE = (
 EXHAUSTIVE = {"quick": True, "thorough": True}
 ASSUMPTIONS = [
     "reference action; character formula (1/|G|) sum_g fix(g) tr(g)^k det(g)^p evaluated in integers",
-    "d=3, M=5, k>=2 and similar sizes whose basis matrix exceeds memory are outside the swept bound",
+    "d=3, M>=4 with k>=2 is swept only for the two HEAVY tuples of the thorough tier (d=3, M=5, k=3; minutes and ~1 GB each); d=3 k=4 is outside the swept bound",
 ]
 ANCHORS = [
     "ginjax.geometric.common:get_unique_invariant_filters",
@@ -72,8 +72,15 @@ def tuples(tier):
     return out
 
 
+# the expensive end of the statement's range (d=3, M=5, k=3: 3375 seeds, ~1 GB, minutes per tuple): thorough tier only, with
+# small groups that fix the far corner / the last slab (their orbits can lie entirely in the tail of the seed list)
+HEAVY = [("C3", 3, 5, 3, 0), ("C4z", 3, 5, 3, 1)]
+
+
 def cases(tier, seed):
     out = []
+    if tier == "thorough":
+        out += [{"G": G, "D": D, "M": M, "k": k, "p": p, "heavy": True} for G, D, M, k, p in HEAVY]
     for G, D, M, k, p in tuples(tier):
         # trivial / tiny groups generate one filter per basis element: bound the family size (bigness() is a Python loop)
         dim_upper = (M**D) * (D**k)
@@ -179,11 +186,11 @@ def run(case, ctx):
         # history element: a previous request for another group of the SAME order (and otherwise equal arguments) must
         # not influence this one (module-level memo tables are the library's only shared mutable state)
         decoys = [n for n, Gd in rgroup.subgroups(D).items() if n != G and len(Gd) == len(ops)]
-        if decoys and case["M"] <= 3:
+        if decoys and case["M"] <= 3 and not case.get("heavy"):
             geom.get_unique_invariant_filters(M, k, p, D, [np.asarray(g) for g in rgroup.subgroups(D)[decoys[0]]], "normalize")
             evals += 1
             viols += _mon.take()
-        for scale in ("one", "normalize"):
+        for scale in (("normalize",) if case.get("heavy") else ("one", "normalize")):
             _mon.last = None
             fl = geom.get_unique_invariant_filters(M, k, p, D, ops, scale)
             evals += 1
@@ -199,7 +206,7 @@ def run(case, ctx):
                 if r != len(a):
                     viols.append(viol("scale-modes-span-differ", f"rescaling changed the span: rank of union {r} vs {len(a)}; {key}"))
         # assembly (dict / list / MultiImage) for this M with both parities of this k and of k=0
-        if not viols:
+        if not viols and not case.get("heavy"):
             ks = sorted({0, k})
             fd, maxn = geom.get_invariant_filters_dict([M], ks, [0, 1], D, ops)
             fl = geom.get_invariant_filters_list([M], ks, [0, 1], D, ops)
